@@ -2,7 +2,7 @@
 theorems Props/C02.v (partition of the assignment space, totality of true results); compared as MULTISETS of rows."""
 from __future__ import annotations
 
-from . import eqlcheck, eqlgen
+from . import eqlcheck, eqlgen, eqlpred
 
 PROP = "C02"
 
@@ -12,7 +12,7 @@ def run(tier: str, seed: int, replay=None) -> int:
         PROP, tier, seed, replay, profile="c02", mode="bag", n_quick=2500, n_thorough=100000,
         targets=["Props/C02.vo"],
         in_fragment=lambda c: eqlcheck.FRAG02.get(eqlcheck.case_key(c), False),
-        in_scope=lambda c: eqlcheck.FRAG02.get(eqlcheck.case_key(c), eqlgen.in_f02(c)), modelled_classes=[],
+        in_scope=lambda c: eqlcheck.FRAG02.get(eqlcheck.case_key(c), eqlgen.in_f02(c)), modelled_classes=[], extra_streams=[eqlpred.stream],
         trusted=[
             "hand-written model Eql/Eval.v of symbolic.py, tied by differential execution through the public API; the generator bodies of "
             "Not/AND/OR/Union/ElseIf and the decisions of or_/not_ are additionally regenerated from the source on every run "
@@ -28,4 +28,7 @@ def run(tier: str, seed: int, replay=None) -> int:
         ],
         rule=("seeded random queries (harness/eqlgen.py, profile c02, biased to the fragment); rows compared as MULTISETS with the "
               "Spec's enumeration of satisfying assignments; cases outside the fragment only observe the model/implementation tie. "
-              "distinct = distinct (world, domains, query); non-trivial = has a condition and a non-empty answer"))
+              "distinct = distinct (world, domains, query); non-trivial = has a condition and a non-empty answer. Plus a "
+              "predicate stream (harness/eqlpred.py, 400 quick / 6000 thorough): conditions over int variables that mix "
+              "comparisons with symbolic-function calls under and_/not_ and or_ between same-variable conditions, compared as "
+              "multisets with a direct Python evaluation (no Coq model: the condition syntax has no predicate calls)"))
